@@ -4,25 +4,25 @@ import json, os, sys, importlib
 HERE = os.path.dirname(os.path.abspath(__file__))
 sys.path.insert(0, os.path.join(HERE, 'rules'))
 TECH = {
- 'C01': 'MIR path rules: must-pass / dominance / owner-id guard / guard liveness / confinement',
- 'C02': 'MIR call-graph confinement + dominance under validation_mode + taint (no read-modify-write)',
- 'C03': 'MIR dominance and loop-exit control dependence on the shutdown/drain path',
- 'C04': 'MIR confinement (stable key-only sort) + guard control dependence in the iterator',
- 'C05': 'MIR guard liveness (one guard spans publication) + hand-over order + key-compare guard',
- 'C06': 'const-evaluated layout relations + narrowing-cast dominance on the encode path',
- 'C07': 'MIR control dependence (ref_counted guards) + must-pass in write_existing_value_plan',
- 'C08': 'MIR effect-before-error path search over the commit entry closure',
- 'C09': 'MIR sibling agreement (both-index search), guard liveness on index swap, confinement of drop_file',
- 'C10': 'MIR narrowing-cast audit + order + guard liveness',
- 'C11': 'MIR control dependence of planning on the deferral test + registry confinement',
- 'C12': 'MIR dominance / must-pass under sync assumptions + confinement of sync, truncate, unlink',
- 'C13': 'MIR validator/applier sibling agreement + panic-site audit of the pre-checksum closure',
- 'C14': 'MIR must-pass (dirty_header after every header-field store) + guard liveness',
- 'C15': 'MIR wake-up pairing (must-pass notify), wait/wake predicate complement, lock-order graph',
- 'C16': 'MIR error-discipline: every fallible result consumed; gate closes; unwrap audit',
- 'C17': 'MIR dominance in open + writer/reader string-table agreement + file-name predicate agreement',
- 'C18': 'MIR dominance (lock first), provenance (locked file stored), confinement (unlock last)',
- 'C20': 'MIR sibling agreement, error propagation, loop-carried move',
+ 'C01': 'MIR path rules: must-pass / dominance / owner-id guard / guard liveness / confinement / value provenance (salt, key digest); thorough tier adds a compile-fail witness (handle is opaque)',
+ 'C02': 'MIR call-graph confinement + dominance under validation_mode + taint (no read-modify-write) + validator/applier table agreement + ordered-iteration provenance of record sections',
+ 'C03': 'MIR dominance and loop-exit control dependence on the shutdown/drain path + FIFO discipline of the log queues',
+ 'C04': 'MIR confinement (stable key-only sort) + guard control dependence in the iterator + recursion audit; thorough tier adds a compile-fail witness (iterator borrows the handle)',
+ 'C05': 'MIR guard liveness (one guard spans publication and lookup) + hand-over order + key-compare guard + overlay slot addressing; thorough tier adds compile-fail witnesses',
+ 'C06': 'const-evaluated layout relations + narrowing-cast dominance on the encode path + one-guard rule for chained reads',
+ 'C07': 'MIR control dependence (ref_counted guards) + must-pass in write_existing_value_plan + append-only change lists',
+ 'C08': 'MIR effect-before-error path search over the commit entry closure + constructor confinement of Commit',
+ 'C09': 'MIR sibling agreement (all-generation search and purge), guard liveness on index swap and lookup, confinement of drop_file, retry-after-growth',
+ 'C10': 'MIR narrowing-cast audit + order + guard liveness + recursion and slice-range audits + lock decision rule',
+ 'C11': 'MIR control dependence of planning on the deferral test + registry confinement + marking under the queue lock + field-effect slices of the re-queued change set; thorough tier adds a compile-fail witness',
+ 'C12': 'MIR dominance / must-pass under sync assumptions + confinement of sync, truncate, unlink + error-edge rules of the cleanup and append paths',
+ 'C13': 'MIR validator/applier sibling agreement + panic-site audit of the pre-checksum closure + error-kind guards on end-of-data',
+ 'C14': 'MIR must-pass (dirty_header after every header-field store) + guard liveness + overlay-shadowed planning reads',
+ 'C15': 'MIR wake-up pairing (must-pass notify under the mutex), wait/wake predicate complement, lock-order graph, deferral progress',
+ 'C16': 'MIR error-discipline: every fallible result consumed; gate closes; unwrap audit; error-kind guards; error-edge rules of cleanup and append',
+ 'C17': 'MIR dominance in open + writer/reader string-table agreement + file-name predicate agreement + version/salt provenance in the administration calls',
+ 'C18': 'MIR dominance (lock first), provenance (locked file stored), confinement (unlock last), no-write-before-open in the offline entry points',
+ 'C20': 'MIR sibling agreement, error propagation, loop-carried move, version/salt provenance, checked close, ordering of reopen and file moves',
 }
 NA = {
  'C19': 'bit-level agreement of the SSE2 page search with the scalar search over all pages/keys/positions is a value property; no structural clause is close to sufficient (needs enumeration/SMT, another family)',
